@@ -21,7 +21,7 @@ RULE = (
 )
 TIERS = {"quick": {"shards": 8, "n": 900, "budget_s": 200}, "thorough": {"shards": 16, "n": 12000, "budget_s": 2700}}
 FLOOR = {"quick": 200, "thorough": 10000}
-REQUIRED_LABELS = {"quick": ["kwargs-param:not-last", "kind:literal", "kind:optint", "d:bool", "d:neg-int"], "thorough": []}
+REQUIRED_LABELS = {"quick": ["kwargs-param:not-last", "kind:literal", "kind:optint", "d:bool", "d:neg-int", "class-with-__call__", "__call__-executed"], "thorough": []}
 ASSUMPTIONS = [
     "exec'ing emitted code is safe because the interface contains only literals and names of our own vocabulary",
     "pydantic's BaseModel is stubbed by `object` (pydantic itself is not a dependency of the repository)",
@@ -33,6 +33,8 @@ EMITTERS = [
     ("function", {"type_annotations": True, "emit_as_kwonlyargs": True}),
     ("function", {"type_annotations": False, "emit_as_kwonlyargs": False}),
     ("argparse", {}),
+    # function -> class: the function's body becomes `__call__`, parameter names rewritten to attributes
+    ("class", {"emit_call": True}),
 ]
 CELLS = [(i, s) for i in range(len(EMITTERS)) for s in ("rest", "google", "numpydoc")]
 
@@ -85,9 +87,15 @@ def check_cell(r, case, cell):
     fmt, kw = EMITTERS[ei]
     tag = "[%s%s,%s]" % (fmt, "".join("," + k[:4] + "=" + str(v)[:1] for k, v in kw.items()), style)
     ps = case["params"]
+    ir = gen_ir.to_ir(case)
+    if kw.get("emit_call"):
+        names = [n for n, _p in ps if not n.endswith("kwargs")]
+        body = "vp_result = (%s)\nreturn vp_result" % "".join(n + ", " for n in names)
+        ir["_internal"] = {"body": ast.parse("def _f():\n" + "\n".join("    " + l for l in body.splitlines())).body[0].body, "from_name": "foo", "from_type": "static"}
+        r.label("class-with-__call__")
     try:
         with core.quiet():
-            src, node = hops.emit_src(fmt, gen_ir.to_ir(case), docstring_format=style, **kw)
+            src, node = hops.emit_src(fmt, ir, docstring_format=style, **kw)
     except Exception as e:
         r.fail("emit-raises", "%s %s" % (tag, core.exc_bucket(e)))
         return
@@ -132,6 +140,20 @@ def check_cell(r, case, cell):
                     r.fail("class-default", "%s %s: described %r, attribute %r" % (tag, n, tv(pyval(p)), tv(C.__dict__.get(n, "<none>"))))
             elif has:
                 r.fail("class-default-invented", "%s %s has attribute %r" % (tag, n, C.__dict__[n]))
+        if kw.get("emit_call"):
+            call = C.__dict__.get("__call__")
+            if call is None:
+                r.fail("call-method", "%s emit_call=True but the class has no __call__" % tag)
+            elif all("default" in p for n, p in ps if not n.endswith("kwargs")) and not any(n.endswith("kwargs") for n, _p in ps):
+                # every attribute has a value: the rewritten body must read exactly those attributes
+                try:
+                    got = C().__call__()
+                    want = tuple(tv(pyval(p)) for _n, p in ps)
+                    if tuple(map(tv, got)) != want:
+                        r.fail("call-method", "%s __call__ returns %r, attributes are %r" % (tag, got, want))
+                    r.label("__call__-executed")
+                except Exception as e:
+                    r.fail("call-method", "%s __call__ raises %r in %r" % (tag, e, src[-300:]))
     elif fmt == "function":
         f = g.get("foo")
         if f is None:
